@@ -215,8 +215,11 @@ theorem getOp_prov (T : Tables) (kp : List Str) (S : Bool) (h : kp ≠ []) : Pro
       rw [ht] at this
       exact this
     | none =>
-      cases hl : lookup (lastD kp) T.search with
-      | some m => exact provAt_lookup T .search [] T.search (lastD kp) kp (reach_top T .search) (by simpa using lastD_sublist kp h) m hl
-      | none => trivial
+      by_cases hu : withinSearchUserDocument kp = true
+      · simp only [hu, if_true]; trivial
+      · simp only [hu, if_false]
+        cases hl : lookup (lastD kp) T.search with
+        | some m => exact provAt_lookup T .search [] T.search (lastD kp) kp (reach_top T .search) (by simpa using lastD_sublist kp h) m hl
+        | none => trivial
 
 end Anonymongo
